@@ -27,3 +27,26 @@ package provider
 //@ precall SetConsumerRewardsAllocationByDenom [adds-to-the-senders-record] $GetConsumerRewardsAllocationByDenom.called && $SetConsumerRewardsAllocationByDenom.consumerId == $GetConsumerRewardsAllocationByDenom.consumerId && $SetConsumerRewardsAllocationByDenom.denom == $GetConsumerRewardsAllocationByDenom.denom && $GetConsumerRewardsAllocationByDenom.ret1 == nil
 //@ precall SetConsumerRewardsAllocationByDenom [provider-denom] (stretch) $SetConsumerRewardsAllocationByDenom.denom == GetProviderDenom(data.Denom, packet)
 //@ ensures [returns-transfer-ack] result == ack
+
+// ---------------------------------------------------------------- C17 / C08: the provider's side of the CCV channel
+
+//@ func AppModule.OnChanOpenInit
+//@ ensures [provider-never-initiates] result1 != nil && S == old(S) && E == old(E) && X == old(X)
+
+//@ func AppModule.OnChanCloseInit
+//@ ensures [no-user-close] result != nil && S == old(S) && E == old(E) && X == old(X)
+
+//@ func AppModule.OnChanOpenTry
+//@ requires am.keeper != nil
+//@ ensures [params] err == nil ==> order == channeltypes.ORDERED && portID == am.keeper.GetPort(ctx) && counterparty.PortId == ccv.ConsumerPortID && counterpartyVersion == ccv.Version
+//@ ensures [verified] err == nil ==> $VerifyConsumerChain.called && $VerifyConsumerChain.connectionHops == connectionHops && $VerifyConsumerChain.ret == nil
+//@ ensures [binds-nothing] S == old(S) && E == old(E) && X == old(X)
+
+//@ func AppModule.OnChanOpenConfirm
+//@ requires am.keeper != nil
+//@ ensures [binds] $SetConsumerChain.called && $SetConsumerChain.channelID == channelID && result == $SetConsumerChain.ret
+
+//@ func AppModule.OnRecvPacket
+//@ requires am.keeper != nil
+//@ precall OnRecvSlashPacket [only-slash-packets] consumerPacket.Type == ccv.SlashPacket && ack.Success()
+//@ precall OnRecvSlashPacket [this-packet] $OnRecvSlashPacket.packet == packet && $OnRecvSlashPacket.data == data
